@@ -2,6 +2,7 @@ CONSTANTS
   RATE = 8
   WIDTH = 12
   Mutants = {{"wires_cap"}}
+  EncodeMutant = "none"
   ConfigSet = "one"
 INIT Init
 NEXT Next
